@@ -264,6 +264,15 @@ pub fn run(ctx: &Ctx, st: &mut Stats) {
             }
         }
     });
+    // intervals above 2^53 us that are not doubles (the conversion rounds them) x infinite, huge and whole operands, both signs
+    let nwi = ctx.tier.pick(100, 100_000, 1_000_000);
+    ctx.par(st, "intervals above 2^53 us (not representable as doubles) x infinite / huge / whole operands", false, 0, nwi, |st, _, rng| {
+        let x = rng.range_i64(1i64 << 53, DT_LIM) | 1;
+        let x = if rng.chance(1, 2) { -x } else { x };
+        let f = *rng.pick(&[f64::INFINITY, f64::NEG_INFINITY, f64::MAX, f64::MIN, 3.5e305, 1e306, 1000.0, -1000.0, 7.0, 3.0, 1e6, 86_400.0, 2.0, 1.0, -1.0, 1e-3, 0.5]);
+        st.eval(&C::af(K::DtMul, x, f), both);
+        st.eval(&C::af(K::DtDiv, x, f), both);
+    });
     // every integer k up to the limit x operands whose whole seconds sit in the residue classes 0, 1, k-1 (mod k) with
     // fractions at both ends of the second and around the 32-bit marks of a microsecond count scaled by 10^6
     let lim2 = ctx.tier.pick(40, 6_000, 70_000);
